@@ -31,10 +31,23 @@ class Node:
         return out
 
 
-def parse(t):
+def parse(t, uniq=None):
+    """['R', k] stands for the very same event as the k-th leaf created so far (one event filling several operand slots)"""
+    uniq = [] if uniq is None else uniq
     if t[0] in ('all', 'any', 'and', 'or'):
-        return Node(t[0], [parse(c) for c in t[1:]])
-    return Node('leaf', spec=t)
+        return Node(t[0], [parse(c, uniq) for c in t[1:]])
+    if t[0] == 'R':
+        return uniq[t[1]]
+    uniq.append(Node('leaf', spec=t))
+    return uniq[-1]
+
+
+def uleaves(root):
+    out = []
+    for lf in root.leaves():
+        if not any(lf is o for o in out):
+            out.append(lf)
+    return out
 
 
 def h_cond(cfg):
@@ -61,7 +74,7 @@ def h_cond(cfg):
         return cb
 
     # leaves exist from t=0
-    for li, lf in enumerate(root.leaves()):
+    for li, lf in enumerate(uleaves(root)):
         lf.idx = li
         lf.value = sym_int('v%d' % li)
         k = lf.spec[0]
@@ -259,8 +272,11 @@ def h_cond(cfg):
                 check('c05.waiter-gets-value', w[0] == 'ok' and isinstance(w[1], ConditionValue))
                 if w[0] == 'ok' and isinstance(w[1], ConditionValue):
                     cv = w[1]
-                    exp = [lf for lf in root.leaves() if lf.proc_step is not None and lf.proc_step < root.proc_step]
-                    keys = list(cv.keys())
+                    exp = [lf for lf in uleaves(root) if lf.proc_step is not None and lf.proc_step < root.proc_step]
+                    keys = []
+                    for k in cv.keys():           # an event filling several slots is one key of the mapping
+                        if not any(k is o for o in keys):
+                            keys.append(k)
                     check('c05.value-keys-in-operand-order', len(keys) == len(exp) and
                           all(a is b.ev for a, b in zip(keys, exp)), ([lf.idx for lf in exp], len(keys)))
                     if len(keys) == len(exp):
@@ -268,10 +284,12 @@ def h_cond(cfg):
                             check('c05.value-maps-leaf-to-its-value', eq(cv[lf.ev], lf.value), lf.idx)
                         td = cv.todict()
                         check('c05.todict', len(td) == len(exp))
-                    if len(exp) < len(root.leaves()):
+                    if len(exp) < len(uleaves(root)):
                         cover('partial-value')
     if len(root.leaves()) >= 2:
         cover('nontrivial')
+    if len(uleaves(root)) < len(root.leaves()):
+        cover('shared-operand')
     obs('root', root.proc_time, root.ok)
 
 
@@ -337,6 +355,13 @@ def jobs(tier, seed):
         # depth 3 with partial progress at the deepest level when the root is met
         ['or', ['or', ['and', T, T], T], T], ['any', ['all', ['any', T, T], T], T],
     ]
+    # one event filling several operand slots (directly, and through nested conditions)
+    R0 = ['R', 0]
+    trees += [['all', T, R0], ['and', EO, R0], ['all', T, EO, R0], ['any', T, R0], ['all', ['any', T, T], R0],
+              ['and', ['or', T, P], ['or', R0, T]]]
+    if tier != 'quick':
+        trees += [['all', P, T, R0, ['R', 1]], ['all', ['all', T, R0], R0], ['or', ['and', T, R0], EO],
+                  ['all', ['any', T, T], ['any', R0, ['R', 1]]]]
     if tier != 'quick':
         trees += [['all', ['any', T, T], ['any', T, T]], ['any', ['all', T, T], ['all', T, T]],
                   ['all', ['any', ['all', T, T], T], T], ['any', ['all', ['any', T, EF], T], T],
@@ -360,9 +385,9 @@ META = {
                         'c05.waiter-instant', 'c05.value-keys-in-operand-order', 'c05.value-maps-leaf-to-its-value',
                         'c05.waiter-gets-operand-exception', 'c05.unhandled-late-failure-raises', 'c05.empty-immediate'],
     'required_covers': ['nontrivial', 'met-at-construction', 'partial-value', 'failed-before-met', 'late-failure-crash',
-                        'mixed-refused', 'empty'],
+                        'mixed-refused', 'empty', 'shared-operand'],
     'bounds': {'quick': '20 condition trees (AllOf, AnyOf, &, |; depth <= 2, <= 3 leaves) over timeouts, shared events succeeded or '
-                        'failed by helpers, child processes; construction instant, completion instants and values symbolic',
+                        'failed by helpers, child processes, one event in several operand slots; construction instant, completion instants and values symbolic',
                'thorough': '27 trees, depth <= 3, <= 4 leaves'},
     'assumptions': ['operands already processed at construction are counted in operand order',
                     'the per-node oracle reads the order in which the kernel processed the node\'s direct operands'],
